@@ -258,6 +258,29 @@ def HisoReaddir (s : Shared) : List Nat → Bool
   | [] => true
   | a :: rest => isoReaddirStep s a && HisoReaddir (stepParty s a) rest
 
+/-- The purely local clause of `H_iso`: the next call of party `a` does not rename (treat as a message) a name
+the party has in flight itself. -/
+def ownStep (s : Shared) (a : Nat) : Bool :=
+  match s.parties[a]? with
+  | none => true
+  | some p =>
+    match p.prog with
+    | .ret _ => true
+    | .call c _ => !c.isRename || (callSrc (s.view p) c).toList.all fun x => !p.inFlight.contains x
+
+def HisoOwn (s : Shared) : List Nat → Bool
+  | [] => true
+  | a :: rest => ownStep s a && HisoOwn (stepParty s a) rest
+
+/-- Isolation stated on the results of `readdir` and on name spaces: `N i` is the set of names party `i`
+can generate (`now.pid_count.host...`); no `readdir` of a party returns a name of ANOTHER party's name space. -/
+def HisoReaddirNS (N : Nat → Bytes → Prop) (s : Shared) : List Nat → Prop
+  | [] => True
+  | a :: rest =>
+    (∀ (ps : PState) (d : Handle) (k : Res → Prog Bool) (n : Bytes), s.parties[a]? = some ps → ps.prog = .call (.readdir d) k →
+      predict (s.view ps) (.readdir d) = .name n → ∀ j, j ≠ a → ¬ N j n) ∧
+    HisoReaddirNS N (stepParty s a) rest
+
 /-! ## the parties -/
 
 /-- An mdsort action-list run as a party: its value is the error flag. -/
